@@ -45,6 +45,16 @@ def parseDump (obs : String) : Option Dump :=
     | _ => none
   | _ => none
 
+def parseOut (obs : String) : Option Out :=
+  match words obs with
+  | ["ok", e] => some (.okPut (e == "1"))
+  | ["err"] => some .err
+  | ["v", n] => some (.val (nat! n))
+  | ["nf"] => some .notFound
+  | ["no"] => some .no
+  | ["-"] => some .unit
+  | _ => none
+
 def capOf (hdr : List String) : Nat :=
   match hdr with
   | _ :: "cap" :: c :: _ => nat! c
@@ -57,6 +67,10 @@ def runCase : CaseFn := fun c => Id.run do
   let mut st : State := { cap := cap }
   let mut sp : Spec := { cap := cap }
   let mut diverged := false
+  -- sequential cases: the implementation's own observations around the last operation
+  let mut prevDump : Option Dump := none
+  let mut lastOp : Option (Op × Out × String) := none
+  let mut bad : List Nat := []
   for (ln, line) in c.lines do
     let (op, obs) := splitObs line
     let ws := words op
@@ -64,9 +78,21 @@ def runCase : CaseFn := fun c => Id.run do
       match parseDump obs with
       | none =>
         out := out.push s!"ORACLE-FAIL C16 case {c.num} line {ln}: cache unusable after a failed or concurrent call ({obs})"
+        prevDump := none
+        lastOp := none
       | some d =>
         if !dumpOk cap d then
           out := out.push s!"ORACLE-FAIL C16 case {c.num} line {ln}: resident-set invariant broken: {obs}"
+        if kind == "seq" then
+          match prevDump, lastOp with
+          | some d1, some (o, r, txt) =>
+            match obsClause bad o r d1 d with
+            | some shape =>
+              out := out.push s!"ORACLE-FAIL C16 case {c.num} line {ln}: shape={shape} <{txt}> took the cache from <{showDump d1}> to <{obs}>"
+            | none => pure ()
+          | _, _ => pure ()
+          prevDump := some d
+          lastOp := none
         if kind != "free" && !diverged then
           let m := showDump (dumpOfState st)
           let s := showDump (dumpOfSpec sp)
@@ -96,6 +122,11 @@ def runCase : CaseFn := fun c => Id.run do
       | some o =>
         if obs == "HANG" then
           out := out.push s!"ORACLE-FAIL C16 case {c.num} line {ln}: call never returned: {op}"
+        match o with
+        | .poison v => bad := v :: bad
+        | .heal v => bad := bad.filter (· != v)
+        | _ => pure ()
+        lastOp := (parseOut obs).map (fun r => (o, r, line))
         if !diverged then
           let (st', mo) := step st o
           let (sp', so) := sp.step o
